@@ -953,6 +953,8 @@ val finfo_get : aval -> aval -> char list -> aval result
 
 val count_true_prefix : bool list -> nat -> nat
 
+val gl_known_type : char list -> bool
+
 val glencoe_parse_tree : nat -> aval -> path -> ptr -> aval -> pfeature result
 
 val glencoe_parse_ctc : nat -> aval -> aval -> node result
